@@ -1,3 +1,4 @@
+import BycycleModel.Routing
 import Proofs.BurstFeatures
 /-!
 # C05 — burst features equal their documented definitions
@@ -91,5 +92,9 @@ example : ampFractionN [some 1, none, some 3, some 2] = [some (1/4), none, some 
 example : ampConsistency true .both [1, 2, 4, 1] [2, 2, 1, 3] = .ok [.nan, .fin (1/2), .fin (1/4), .nan] := by decide +kernel
 example : ampConsistency false .both [1, 2, 4, 1] [2, 2, 1, 3] = .ok [.nan, .fin (1/2), .fin (1/4), .nan] := by decide +kernel
 example : ampFraction [3, 1, 3, 2] = [7/8, 1/4, 7/8, 1/2] := by decide +kernel
+
+/-- the wiring of the burst-feature stage read off the source: the four features are computed from the one table the stage was given, monotonicity and
+the amplitude detector also get the signal, the detector the caller's burst options, the run filter the caller's `min_n_cycles`. -/
+theorem C05_routing : ∀ r ∈ Routing.burstFeatures, Routing.holds Slots.routes r = true := by decide +kernel
 
 end Bycycle
